@@ -59,6 +59,34 @@ def revisit_cases(rng, p, n):
     return out
 
 
+def blank_line_cases(rng, p, n):
+    """charts with blank lines (empty, blanks, a TAB) *inside* section bodies — before the closing brace, after the opening one, between
+    note lines of different ticks: a blank body line is reported and changes nothing else (every section still gets its own lines)"""
+    import copy
+    out = []
+    for _ in range(n):
+        src = gen.rand_src(rng, p)
+        R = gen.render(src, rng, p, garbage=False)
+        lines = R.text.split(R.newline)
+        inside, spots = False, []
+        for i, l in enumerate(lines):
+            if l == "{":
+                inside = True
+                spots.append(i + 1)
+            elif l == "}":
+                inside = False
+                spots.append(i)
+            elif inside:
+                spots.append(i + 1)
+        # never between two lines of one tick (that would split nothing — a blank line is no N line — but keep the truth simple)
+        for i in sorted(rng.sample(spots, min(len(spots), rng.randint(1, 6))), reverse=True):
+            lines.insert(i, rng.choice(["", "", "  ", "\t"]))
+        R2 = copy.copy(R)
+        R2.text = R.newline.join(lines)
+        out.append((src, R2))
+    return out
+
+
 def run(ctx, out, cases, project, truth_project, label, nontrivial, also=None):
     """cases: list of (src, Rendered). project(notes list of one track) / truth_project(truth list) must be comparable."""
     a, b = common.run_charts([(R.text, None) for _, R in cases])
